@@ -15,7 +15,8 @@ TLC_WORKERS = 4
 def _step(st):
     a = st["a"]
     if a == "Send":
-        return f"Send({st['id']}->{st['to']})"
+        c = st.get("c", "fresh")
+        return f"Send({st['id']}->{st['to']})" if c == "fresh" else f"Send({st['id']}->{st['to']},id={c})"
     if a == "Recv":
         return f"Recv({st['id']}:{st['ty']}:{st['from']})"
     if a in ("Open", "Close"):
@@ -42,6 +43,7 @@ def _starts(cases):
 def _report(chk, s, behs, cases, layer, prefix):
     start = _starts(cases)
     seen = set()
+    count = {}
     # shortest histories first: they come from the all-paths / tour sets and do not depend on the seed
     for v in sorted(s["viol"], key=lambda v: (v["line"] - start[v["case"]], v["line"])):
         if v["case"] in seen:
@@ -49,10 +51,14 @@ def _report(chk, s, behs, cases, layer, prefix):
         seen.add(v["case"])
         b = behs[int(v["case"][len(prefix):]) - 1]
         upto = b["steps"][:max(1, v["line"] - start[v["case"]])]
+        # at most two per predicate and kind of caller id involved (plain / empty / duplicate)
+        cids = {st.get("c", "fresh")[:3] for st in upto if st["a"] == "Send"}
+        kind = (v["prop"], "dup" if "dup" in cids else "emp" if "emp" in cids else "")
+        if count.get(kind, 0) >= 2:
+            continue
+        count[kind] = count.get(kind, 0) + 1
         sig = f"C07:{layer}:{v['prop']}:" + ",".join(_step(st) for st in upto)
         chk.violation(sig, f"{v['prop']} fails at step {v['e']} of behaviour {sig}", [b] + cases[v["case"]])
-        if sum(1 for x in chk.violations if f":{layer}:{v['prop']}:" in x["sig"]) >= 3:
-            seen.update(x["case"] for x in s["viol"] if x["prop"] == v["prop"])     # at most three per predicate
 
 
 def _aborts(chk, s, behs, cases, what):
@@ -69,6 +75,12 @@ def run_tracker(chk, replay):
     chk.mc(vf.tlc_mc("IqTracker.tla", "IqTracker.cfg", workers=TLC_WORKERS), "IqTracker.cfg")
     if not quick:
         chk.mc(vf.tlc_mc("IqTracker.tla", "IqTrackerBig.cfg", workers=TLC_WORKERS, tag="IqTrackerBig"), "IqTrackerBig.cfg")
+        # vacuity guard: without the rule "an empty / duplicate id is replaced" the design must break
+        k = vf.tlc_mc("IqTracker.tla", "IqTrackerKeep.cfg", workers=TLC_WORKERS, tag="IqTrackerKeep")
+        if k["ok"] or "RightSender is violated" not in k["out"]:
+            raise vf.MachineryError("IqTrackerKeep.cfg (id rule left out) does not violate RightSender: the specification "
+                                    "no longer depends on the rule it is meant to express")
+        chk.cov["spec_self_test"] = "IqTrackerKeep.cfg (IdRule = keep) violates RightSender as it must"
     if replay is not None:
         behs = replay
     else:
@@ -77,8 +89,9 @@ def run_tracker(chk, replay):
         sim, st3 = vf.tlc_simulate("IqTrackerGen.tla", "IqTrackerGenSim.cfg", num=150 if quick else 1500, depth=14 if quick else 24,
                                    seed=chk.seed, workers=TLC_WORKERS)
         allp, st5 = vf.tlc_gen("IqTrackerGen.tla", "IqTrackerGenAll.cfg" if quick else "IqTrackerGenAll7.cfg")
-        gen = {"all_paths": st5, "tour_1_request": st1, "tour_2_requests": st2, "simulate": st3}
-        behs = allp + t1 + t2 + sim
+        idp, st6 = vf.tlc_gen("IqTrackerGen.tla", "IqTrackerGenIds.cfg")
+        gen = {"all_paths": st5, "all_paths_caller_ids": st6, "tour_1_request": st1, "tour_2_requests": st2, "simulate": st3}
+        behs = allp + idp + t1 + t2 + sim
         if not quick:
             t3, st4 = vf.tlc_gen("IqTrackerGen.tla", "IqTrackerGenTourFull.cfg")
             st4["replayed"] = min(len(t3), 15000)
@@ -221,7 +234,10 @@ def run(chk, replay=None):
     run_tracker(chk, tracker)
     run_api(chk, None if rb is None else [b for b in rb if b.get("layer") == "api"])
     chk.cov["exhaustive"] = True
-    chk.cov["rule"] = ("raw layer: transition tour of the one-request model (every transition, all sender classes and iq types), "
+    chk.cov["rule"] = ("raw layer: requests carry caller-chosen ids (fresh, empty, equal to the id of a pending request) and every "
+                       "reply carries the id the request's stanza was really written with; "
+                       "transition tour of the one-request model (every transition, all sender classes and iq types), "
+                       "all send/reply sequences of length 4 with two requests and all id choices, "
                        "transition tour of the two-request model, seeded random walks with three requests; each replayed on a real "
                        "QXmppClient (sendIq, sendGenericIq) connected to a scripted server over 127.0.0.1 (real SASL, bind, XEP-0198 "
                        "enable/resume/failed resume, cut, disconnectFromServer, destruction) and validated by IqTrackerTrace.tla; "
@@ -234,7 +250,7 @@ def run(chk, replay=None):
         "replies from the own bare JID / server domain to a request addressed elsewhere, and from the own full JID / another own "
         "resource / the server domain to a request without addressee, may be treated either way",
         "the server resumes only the session that ended last",
-        "request ids are not reused within an execution",
+        "the id of a request that has completed is not reused within an execution (ids of pending requests and empty ids are)",
         "a task obtained from sendGenericIq (chained with the client as context) is abandoned, not completed, when the client "
         "object is destroyed (C13: no continuation after its context died); raw sendIq tasks are cancelled",
         "manager layer: an API is settled when the scripted server holds no unanswered request of the call and the stub "
